@@ -191,6 +191,21 @@ def _err_adaptors_in(u, b, rep):
                 rep.oblige(not again)
                 if again:
                     rep.add("P-ERR", "%s:%s" % (short_fn(b), nm), "in `%s` the failure of a fallible operation is answered by `%s` inside `.%s(..)`: another stream operation is issued after a failed one" % (b.n, again[0].get("name"), nm), b.crate.span(e["sp"]))
+        if dj.get("krate") == "core" and nm == "or_else" and len(e["args"]) == 2 and _mentions_err_result(b.crate.ty(e["args"][0]["ty"])):
+            # the alternative of a failed operation builds an Ok: the failure is turned into success (on some path)
+            x = e["args"][1]
+            while x.get("k") in ("Use", "NeverToAny") and "e" in x:
+                x = x["e"]
+            if x.get("k") == "Closure":
+                cb = u.bodies.get(b.crate.def_id(x["d"]))
+                built = []
+                if cb is not None and cb.thir is not None:
+                    adts_built_in(cb.crate, cb.thir["root"], built)
+                oks = [1 for (aid, vname, _e3) in built if aid == RESULT and vname == "Ok"]
+                n += 1
+                rep.oblige(not oks)
+                if oks:
+                    rep.add("P-ERR", "%s:or_else:ok" % short_fn(b), "in `%s` the closure of `.or_else(..)` answers the failure of a fallible operation with `Ok(..)`: on that path the failure is turned into success" % b.n, b.crate.span(e["sp"]))
         if dj.get("krate") == "core" and nm in ("flat_map", "flatten", "filter_map") and e["args"]:
             bad = False
             if nm == "flatten":
